@@ -55,7 +55,10 @@ def generate(seed, tier):
             # a multi-line text rejected on its last line; whatever its first lines say must not run - now or later
             ops.append({'op': 'src', 'bad': True, 'entropy': 1,
                         'src': ro.choice(['push(L, 0)\nL | len )', 'L[0] = 99\n( L', 'pop(LS)\nLS | join(",") $', 'x = 1; remove(D, "a"); D | keys ]',
-                                          'insert(NL, 0, 1)\n\nNL | len +'])})
+                                          'insert(NL, 0, 1)\n\nNL | len +',
+                                          # rejected in the middle of a line (illegal character / reserved word after an operator)
+                                          'pop(L) + $', 'push(L, 0) and @', 'L[0] = $', 'x = pop(LS) or ?', 'remove(D, "a") if ~', 'pop(NL) + for',
+                                          'insert(L, 0, 9) == while', '[pop(L), $', 'NL[0] += `'])})
             continue
         ops.append({'op': 'apply', 'pick': ro.randrange(10 ** 6), 'shape_seed': ro.randrange(2 ** 32), 'pipeline': ro.random() < 0.3,
                     'known': ro.random() < 0.6, 'style': gen.style(S['render']), 'entropy': ro.randrange(2 ** 32)})
